@@ -125,16 +125,25 @@ def audit_coq():
 
 
 def coq_make(targets=None, timeout=3000):
-    """Full .vo build of the requested targets (all when None)."""
-    with Lock("coq"):
+    """Full .vo build of the requested targets (all when None). Only the (re)generation
+    of the Makefile is serialised; independent `make` runs may overlap (each property's
+    targets are its own files plus shared, already-compiled libraries). A transient
+    failure caused by two runs compiling the same shared file at once is retried once."""
+    with Lock("coq-makefile"):
         if not os.path.exists(os.path.join(COQ, "Makefile")) or \
                 os.path.getmtime(os.path.join(COQ, "Makefile")) < newest_v_listing():
             vs = sorted(os.path.relpath(os.path.join(r, n), COQ)
                         for r, _, ns in os.walk(COQ) for n in ns if n.endswith(".v"))
             sh(["coq_makefile", "-f", "_CoqProject"] + vs + ["-o", "Makefile"], cwd=COQ)
-        cmd = ["make", "-j%d" % NCPU] + (targets or [])
+    cmd = ["make", "-j%d" % NCPU] + (targets or [])
+    for attempt in (0, 1):
         r = sh(["timeout", str(timeout)] + cmd, cwd=COQ, timeout=timeout + 60, check=False)
-        return r.returncode, r.stdout
+        transient = any(s in r.stdout for s in ("bad magic number", "is corrupted", "inconsistent assumptions",
+                                                "End_of_file", "No such file or directory", "truncated"))
+        if r.returncode == 0 or not transient:
+            break
+        time.sleep(3)
+    return r.returncode, r.stdout
 
 
 def newest_v_listing():
